@@ -106,6 +106,16 @@ func C14(c *Ctx) {
 			}
 			in = in[:len(in):len(in)]
 		}
+		// half of the inputs sit inside a larger buffer with spare capacity behind them: a
+		// setter that appends to its input (or writes past it) changes the caller's memory
+		var whole, wholeCopy []byte
+		if setter != 1 && r.Bool() {
+			whole = r.Bytes(len(in) + 8 + 96)
+			copy(whole[8:], in)
+			in = whole[8 : 8+len(in)]
+			wholeCopy = append([]byte(nil), whole...)
+			c.Tally("inputs with spare capacity")
+		}
 		inCopy := append([]byte(nil), in...)
 		det := map[string]any{"setter": name, "receiver": rsName, "input": hx(in), "why": why}
 		if setter != 1 {
@@ -282,6 +292,9 @@ func C14(c *Ctx) {
 		}
 		if string(in) != string(inCopy) {
 			c.Fail("setter modified its input slice", det)
+		}
+		if whole != nil && string(whole) != string(wholeCopy) {
+			c.Fail("setter wrote to the caller's memory around its input slice (spare capacity)", det)
 		}
 		c.Sample(name+":"+why, map[string]any{"setter": name, "receiver": rsName, "input": hx(in), "why": why})
 	}
